@@ -1334,7 +1334,7 @@ fn add_adversarial(r: &mut Rng, p: &mut Prog, _root: &J) {
                     // ... and as members of a list: `in [ /../, /../ ]` compares through another path
                     lines.push(Line { alts: vec![Clause::Cmp(Cmp { not: r.chance(1, 3), q: q(vec![var("subj")]), op: Op::In, opnot: r.chance(1, 3), rhs: Some(Rhs::Raw(format!("[/{}/, /b/]", re))), msg: None })] });
                 }
-                lets.push(Let { name: "rx".into(), val: Arg::Func(Box::new(Func { name: "regex_replace".into(), args: vec![Arg::Query(q(vec![var("subj")])), Arg::Lit(J::Str("(a+)+$".into())), Arg::Lit(J::Str("$1$1".into()))] })) });
+                lets.push(Let { name: "rx".into(), val: Arg::Func(Box::new(Func { name: "regex_replace".into(), args: vec![Arg::Query(q(vec![var("subj")])), Arg::Lit(J::Str(if r.chance(1, 2) { "(a+)+$".to_string() } else { re.clone() })), Arg::Lit(J::Str("$1$1".into()))] })) });
                 lines.push(Line { alts: vec![Clause::Cmp(Cmp { not: false, q: q(vec![var("rx")]), op: Op::Exists, opnot: false, rhs: None, msg: None })] });
             }
             17 => {
